@@ -18,10 +18,11 @@ import tempfile
 from harness import core, gen, histcheck, isoapi
 from harness.props import c01
 
-LEAN_MODULES = ['Pycdlib.Props.C08', 'Pycdlib.Props.C08Assign']
+LEAN_MODULES = ['Pycdlib.Props.C08', 'Pycdlib.Props.C08Assign', 'Pycdlib.Props.C08Alloc']
 THEOREMS = ['Pycdlib.Susp.chunks_concat', 'Pycdlib.Susp.chunks_len', 'Pycdlib.Susp.addName_concat', 'Pycdlib.Susp.addName_piece_len',
             'Pycdlib.Susp.put_cur_le', 'Pycdlib.Susp.findGap_sound', 'Pycdlib.Susp.addEntry_disjoint', 'Pycdlib.Susp.susp_consts_tie',
-            'Pycdlib.Susp.sl_reassembles', 'Pycdlib.Susp.rrNew_records', 'Pycdlib.Susp.newSymlink_noCE', 'Pycdlib.Susp.assign_noCE', 'Pycdlib.Susp.sl_chain']
+            'Pycdlib.Susp.sl_reassembles', 'Pycdlib.Susp.rrNew_records', 'Pycdlib.Susp.newSymlink_noCE', 'Pycdlib.Susp.assign_noCE', 'Pycdlib.Susp.sl_chain',
+            'Pycdlib.Susp.addEntry_ok', 'Pycdlib.Susp.removeEntry_ok', 'Pycdlib.Iso.ceb_ok']
 PARTIAL = {
     'link_roundtrip': 'proved for the model of _new_symlink (sl_reassembles, every target and every amount of room left); that the '
     'model is _new_symlink is the S-fn correspondence over the target-shape grid; the byte encoding of SL records is the reader',
